@@ -81,6 +81,8 @@ def gen_case(st, i, tier="quick", op=None):
             # index-like, small, and projected (UTM-like: large relative to the cell size) origins
             x0 = rng.choice([0.0, 100.0, -7.5, 500000.0, 0.0])
             y0 = rng.choice([0.0, 50.0, -3.0, 4649776.0, 0.0])
+            if rng.random() < 0.25:
+                x0 = y0 = 0.0            # index-like coordinates (arange * cellsize) are what most examples use
         exact = (not lonlat) and rng.random() < 0.25
         if exact:
             # "exactly at the halo": decimal cell sizes from a 0.05 grid and max_distance = k cells typed
@@ -109,7 +111,7 @@ def gen_case(st, i, tier="quick", op=None):
             data[nprs.rand(H, W) < 0.1] = np.nan
         params = {"distance_metric": metric}
         if rng.random() < 0.35:
-            params["target_values"] = rng.choice([[1], [2, 3], [1, 2, 3], [3], [0], [0, 1], [-1, -2]])
+            params["target_values"] = rng.choice([[1], [2, 3], [1, 2, 3], [3], [0], [0], [0, 1], [0, 2], [-1, -2]])
         r = rng.random()
         if r < 0.12:
             params["max_distance"] = None
